@@ -140,15 +140,40 @@ def random_scripts(tier, seed, scale):
     return out
 
 
+def nocopy_scripts(tier):
+    """destructor-only element type (as reference_array<T>) in BufferNoCopy buffers, grown past the first allocation
+    (more than 8 elements) or not, then shared: a modification through either handle must be refused or leave every
+    element owned once.  No zero-filling ops here: a zeroed element of such a type is 'empty', which the token
+    bookkeeping of the harness does not know."""
+    out = []
+    def ops(h, o):
+        return ["a insert %s 0 zero:8" % h, "a insert %s u zero:8" % h, "a insert %s u-8 zero:16" % h, "a detach %s u" % h,
+                "a detach %s u+200" % h, "a cut %s 0 8" % h, "a cut %s 8 0" % h, "a reserve %s u+8 f8" % h, "a reserve %s 400 f8" % h,
+                "a reduce %s" % h, "a drop %s" % h, "a clone %s %s" % (h, o)]
+    pool = ops("h0", "h1") + ops("h1", "h0")
+    for n in ((1, 8, 9, 12, 30) if tier == "quick" else (0, 1, 3, 8, 9, 12, 17, 30, 40)):
+        for flags in (2, 0) if n in (9, 12) else (2,):
+            for shared in (True, False):
+                setup = ["a alloc h0 0 %d f8 -" % flags] + ["a insert h0 u zero:8"] * n + (["a clone h1 h0"] if shared else [])
+                for a in pool:
+                    out.append(("nc1:%d:%d:%s:%s" % (n, flags, shared, a), _script(setup, "-", [a])))
+                if n in (9, 12) and flags == 2:
+                    for a in pool:
+                        for b in pool[::2] if tier == "quick" else pool:
+                            out.append(("nc2:%d:%s:%s;%s" % (n, shared, a, b), _script(setup, "-", [a, b])))
+    return out
+
+
 def scripts(tier, seed, scale=1):
     out = []
     full, red, small = both(2), both(1), both(0)
+    out += nocopy_scripts(tier)
     for sn, setup in SETUPS.items():
         for orc in ORACLES:
             for op in full:
                 out.append(("ex1:%s:%s:%s" % (sn, orc, op), _script(setup, orc, [op])))
     pair_setups = ["m4x3", "m4x3-shared", "m8x2-shared", "m4x3-two"]
-    pair_orc = ["-", "1", "01", "001"] if tier == "quick" else ["-", "1", "01", "001", "11", "0001"]
+    pair_orc = ["-", "1", "01"] if tier == "quick" else ["-", "1", "01", "001", "11", "0001"]
     first = small if tier == "quick" else red[::2]
     for sn in pair_setups:
         for orc in pair_orc:
@@ -189,7 +214,118 @@ class _XX:
         return nontrivial(script, c_lines)
 
 
-extra_parts = [_XX]
+class _Refs:
+    """third part: buffers whose elements are references, with the library's own element traits — arrays of arrays
+    (mpt_array_traits), arrays of metatype references (mpt_meta_reference_traits; harness instances, sharable or
+    single-owner) — and leaf arrays of harness tokens; model MptModel/Impl/Refs.lean"""
+    id = "C05"
+    area = "elem"
+    driver = "drv_refs"
+    cxx = False
+    fixed_lines = 1
+
+    @staticmethod
+    def corpus(chk):
+        return [(n, s) for n, s in gen.corpus(id) if s and s[0].startswith("r ")]
+
+    @staticmethod
+    def scripts(tier, seed, scale=1):
+        return refs_scripts(tier, seed, scale)
+
+    @staticmethod
+    def nontrivial(script, c_lines):
+        # a reference was copied or refused and something was released before the end
+        copy = rel = False
+        for ln in c_lines[:-1]:
+            m = _EV.search(ln)
+            if not m or m.group(1) == "-":
+                continue
+            for e in m.group(1).split(","):
+                if e[0] in "acn":
+                    copy = True
+                elif e[0] in "fud":
+                    rel = True
+        return copy and rel
+
+    @staticmethod
+    def finding_key(script, res):
+        op = (res.get("op") or "").split()
+        return "refs:%s:%s" % (res["kind"], op[1] if len(op) > 1 else "?")
+
+
+REF_SETUPS = {
+    # P -> B -> C(3 tokens): h0 = P (only owner of B, which is the only owner of C)
+    "nest3": ["r leaf h0 3", "r wrap h0", "r wrap h0"],
+    # same, h1 shares P
+    "nest3-shared": ["r leaf h0 3", "r wrap h0", "r wrap h0", "r clone h1 h0"],
+    # h0 = [X Y] with X, Y leaf arrays also held by h1, h2
+    "two-children": ["r leaf h1 2", "r leaf h2 1", "r push h0 h1", "r push h0 h2"],
+    # h0 = [X X]: the same child twice, no other owner
+    "twin": ["r leaf h1 2", "r push h0 h1", "r push h0 h1", "r drop h1"],
+    # references to two sharable and one single-owner instance, unshared / shared
+    "meta": ["r mnew h0 2 1", "r madd h0 0"],
+    "meta-shared": ["r mnew h0 2 1", "r madd h0 0", "r clone h1 h0"],
+    "meta-solo-shared": ["r mnew h0 2 0", "r clone h1 h0"],
+    "meta-two": ["r mnew h0 2 1", "r madd h0 0", "r mnew h1 1 0", "r madd h1 1"],
+}
+
+
+def refs_pool(h, o):
+    return ["r take %s 0" % h, "r take %s 1" % h, "r takeo %s %s 0" % (h, o), "r clone %s %s" % (h, o), "r drop %s" % h,
+            "r detach %s" % h, "r cut %s 0" % h, "r cut %s 1" % h, "r push %s %s" % (h, o), "r wrap %s" % h,
+            "r set %s 0 %s 0 1" % (h, o), "r set %s 1 %s 0 2" % (h, o), "r set %s 2 %s 1 1" % (h, o),
+            "r madd %s 1" % h, "r madd %s 0" % h, "r leaf %s 2" % h, "r mnew %s 1 0" % h]
+
+
+def refs_scripts(tier, seed, scale=1):
+    out = []
+    pool = refs_pool("h0", "h1") + refs_pool("h1", "h0") + ["r drop h2", "r clone h2 h0", "r takeo h2 h0 0"]
+    for sn, setup in REF_SETUPS.items():
+        for a in pool:
+            out.append(("rf1:%s:%s" % (sn, a), ["r handles 3"] + setup + [a, "r end"]))
+        for a in pool:
+            for b in (pool if tier != "quick" else pool[::3]):
+                out.append(("rf2:%s:%s;%s" % (sn, a, b), ["r handles 3"] + setup + [a, b, "r end"]))
+    r = gen.rng(id, tier, seed, "refs")
+    n = (300 if tier == "quick" else 5000) * scale
+    hs = ["h0", "h1", "h2", "h3"]
+    for k in range(n):
+        lines = ["r handles 4"]
+        for _ in range(r.randrange(6, 22)):
+            h = r.choice(hs)
+            o = r.choice([x for x in hs if x != h])
+            kind = r.choice(["leaf", "wrap", "push", "push", "take", "takeo", "clone", "clone", "drop", "detach", "cut",
+                             "set", "set", "mnew", "madd", "madd"])
+            if kind == "leaf":
+                lines.append("r leaf %s %d" % (h, r.choice([1, 2, 3])))
+            elif kind == "wrap":
+                lines.append("r wrap %s" % h)
+            elif kind == "push":
+                lines.append("r push %s %s" % (h, o))
+            elif kind == "take":
+                lines.append("r take %s %d" % (h, r.choice([0, 0, 1, 2])))
+            elif kind == "takeo":
+                lines.append("r takeo %s %s %d" % (h, o, r.choice([0, 0, 1, 2])))
+            elif kind == "clone":
+                lines.append("r clone %s %s" % (h, o))
+            elif kind == "drop":
+                lines.append("r drop %s" % h)
+            elif kind == "detach":
+                lines.append("r detach %s" % h)
+            elif kind == "cut":
+                lines.append("r cut %s %d" % (h, r.choice([0, 0, 1, 2])))
+            elif kind == "set":
+                lines.append("r set %s %d %s %d %d" % (h, r.choice([0, 0, 1, 2]), o, r.choice([0, 0, 1]), r.choice([1, 1, 2, 3])))
+            elif kind == "mnew":
+                lines.append("r mnew %s %d %d" % (h, r.choice([0, 1, 2, 3]), r.choice([0, 1, 1])))
+            else:
+                lines.append("r madd %s %d" % (h, r.choice([0, 1, 1])))
+        lines.append("r end")
+        out.append(("rfr:%d" % k, lines))
+    return out
+
+
+extra_parts = [_XX, _Refs]
 
 _EV = re.compile(r" ev=(\S+)")
 
